@@ -16,7 +16,7 @@ func GenerateScalarSuperSetRule(in profile.ScalarSetRule, iriExpander *misc.IriE
 	inValuesVariable := profile.Genvar("inValues")
 	inValuesTestVariable := profile.Genvar(fmt.Sprintf("%s_check", in.Variable.Name))
 
-	rego = append(rego, "#  querying path: "+path.Source())
+	rego = append(rego, queryingPathComment(path.Source()))
 	pathResult := GeneratePropertySet(path, in.Variable.Name, iriExpander)
 	rego = append(rego, fmt.Sprintf("%s_array = %s with data.sourceNode as %s", inValuesTestVariable, pathResult.rule, in.Variable.Name))
 	rego = append(rego, fmt.Sprintf("%s_scalar = %s_array[_]", inValuesTestVariable, inValuesTestVariable))
